@@ -217,4 +217,17 @@ CHECKS = {
              "(1ms-1h), arrival and cancel instants; quick 5 per cell, thorough 2000; all cases non-trivial; distinct = distinct (cell, instants).",
         assumptions=COMMON_ASSUME + ["a release at exactly the bound is not judged here (either verdict is legal; conservation is C02)"],
     ),
+    "C12": dict(
+        pkg="c12", race=False, shards=(4, 16), timeout_s=(600, 3000),
+        technique="quiescence-invariant monitor in a synctest bubble: queue_size gauge (recording registry) = backlog length (verif accessor) = callers inside Acquire <= bound; zero-virtual-time refusal at a full backlog",
+        level_text="PRNG sequences of single arrivals, simultaneous bursts, releases (all outcomes), cancellations and time advances (across backlog "
+                   "time-outs) on the queue limiter (FIFO/LIFO/default, eviction on/off, backlog 1-4, capacity 1-2), optionally with yields at the "
+                   "check->push, push->select and hand-off windows. At every quiescent point the public queue_size gauge, the backlog length and the "
+                   "number of callers whose Acquire has not returned must agree and stay within the bound; an arrival at a full backlog must be "
+                   "refused at the instant it arrived; a cancelled caller (eviction on) must have left. Exploration.",
+        require=["scenarios", "quiescent_checks", "arrivals_at_full_backlog", "simultaneous_bursts"],
+        rule="scenario = (queue config, capacity, 8-32 ops: arrive / burst of 2-5 / release / cancel / sleep); non-trivial = more than 5 quiescent "
+             "checks; distinct = distinct (config, op list).",
+        assumptions=COMMON_ASSUME,
+    ),
 }
